@@ -39,6 +39,11 @@ def run(chk):
         ("-M one line, huge fields, fields 1 and 3", ["M=1", "d=" + hx("-"), "b=" + hx("1,3")], pat8, 8, hx("-bbbb-cccc\n")),
     ]:
         scen.append((name, [(extra + ["pat=" + pat, f"count={n // per}", "tail=" + tail], n) for n in line_sizes]))
+    # a field near the END of one huge line: everything skipped before it must not be kept
+    scen.append(("-M one line, delimiter every 8 bytes, one field near the end",
+                 [(["M=1", "d=" + hx("-"), "b=" + hx(str(n // 8 - 2)), "pat=" + hx(b"aaaaaaa-"), f"count={n // 8}", "tail=" + hx("z\n")], n) for n in line_sizes]))
+    scen.append(("-M one line, delimiter every 8 bytes, first field and a range near the end",
+                 [(["M=1", "d=" + hx("-"), "b=" + hx(f"1,{n // 8 - 9}:{n // 8 - 3}"), "j=1", "pat=" + hx(b"aaaaaaa-"), f"count={n // 8}", "tail=" + hx("z\n")], n) for n in line_sizes]))
     rec = hx(b"aa-bbb-cc\n")
     for name, extra in [
         ("-f fast path, many records", ["d=" + hx("-"), "b=" + hx("2,1")]),
@@ -50,6 +55,10 @@ def run(chk):
         ("-l single far line", ["bt=l", "d=0a", "b=" + hx("999"), "j=1"]),
     ]:
         scen.append((name, [(extra + ["pat=" + rec, f"count={r}"], r * 10) for r in rec_counts]))
+    # requests that skip (almost) the whole input before the first wanted line: what is skipped must not be kept either
+    for name, bf in [("-l single line at the very end", lambda r: str(r - 1)), ("-l short range near the end", lambda r: f"{r - 20}:{r - 10}"),
+                     ("-l first line and one at the end", lambda r: f"1,{r - 2}"), ("-l open range starting near the end", lambda r: f"{r - 5}:")]:
+        scen.append((name, [(["bt=l", "d=0a", "b=" + hx(bf(r)), "j=1", "pat=" + rec, f"count={r}"], r * 10) for r in rec_counts]))
     recz = hx(b"aa-bbb-cc\0")
     for name, extra in [
         ("-z -l ascending, many lines", ["bt=l", "d=00", "z=1", "b=" + hx("2,5:"), "j=1"]),
@@ -99,10 +108,17 @@ def run(chk):
             pat = rng.choice([b"aaaaaaa-", b"aaaaaaaa", b"a-", b"-", b"aaaa\n", b"a-b-c-d\n", b"\n", b"a-\n"])
             name = "random -M option set: " + " ".join(toks(c)) + " pattern " + repr(pat)
         else:
-            c = {"kind": "cut", "bt": "l", "d": b"\n", "b": rng.choice(["1", "2,5:", "3:4,9", "1:", "2,4,6:", "7"]), "j": rng.random() < 0.7}
+            c = {"kind": "cut", "bt": "l", "d": b"\n", "b": rng.choice(["1", "2,5:", "3:4,9", "1:", "2,4,6:", "7", "FAR", "2,FAR:", "FAR:FAR2"]), "j": rng.random() < 0.7}
             pat = rng.choice([b"aa\n", b"\n", b"abcdefghij\n", b"a\nbb\n"])
             name = "random -l ascending request: " + " ".join(toks(c)) + " pattern " + repr(pat)
-        runs = [(toks(c) + ["pat=" + hx(pat), f"count={max(1, n // len(pat))}", "tail=" + hx(b"\n")], n) for n in (small, large)]
+        runs = []
+        for n in (small, large):
+            cnt = max(1, n // len(pat))
+            cc = dict(c)
+            if "FAR" in str(cc.get("b", "")):
+                nl = cnt * pat.count(b"\n")          # lines in the input: the far bounds sit a few lines before its end
+                cc["b"] = cc["b"].replace("FAR2", str(nl - 3)).replace("FAR", str(nl - 9))
+            runs.append((toks(cc) + ["pat=" + hx(pat), f"count={cnt}", "tail=" + hx(b"\n")], n))
         rnd.append((name, runs))
     for name, runs in rnd:
         peaks, sts = [], []
